@@ -13,6 +13,35 @@ CHECKS = {
             "Trusts CPython big integers and the decimal reader/writer that carries operands; lattice values only.", "DESIGN.md §4 C04"),
 }
 
+CHECKS.update({
+    "C17": ("exploration", "bounded-exhaustive enumeration of operand/shift/field lattices against Python two's-complement integers",
+            "Every ordered pair of the integer boundary lattice x 12 binary bitwise operations of SRFI 151, every value x shift and bit-index "
+            "lattice (both directions across word multiples), every value x (start,end) field lattice x 8 field operations, replace / "
+            "bitwise-if / n-ary folds over the small lattice cubed and a fixed 1000-4000 bit family, compared with CPython's unbounded "
+            "two's-complement integers, including the canonical fixnum/bignum form of each result.",
+            "Trusts CPython integers; lattice values only; an empty field for bit-field-rotate and 3-argument bitwise-eqv are not asserted.",
+            "DESIGN.md §4 C17"),
+    "C02": ("fault_enumeration", "exhaustive enumeration of forced-collection points (every allocation index, all-positions, every n-th) on the real interpreter under ASan with poisoned free memory",
+            "For each workload (closures/lists, strings and ports, bignums/ratios/flonums, continuations/dynamic-wind/exceptions/parameters, "
+            "eval + syntax-rules, hash tables/sort/bit ops, json/reader/writer/files/FFI stubs, SRFI-18 threads, two micro workloads) the "
+            "collection schedule is the only thing varied: a collection before every allocation, every n-th, and one collection before "
+            "allocation k for every k (micro workloads; all workloads in the thorough tier; strided otherwise), for several initial heap sizes. "
+            "Oracle: output byte-identical to the schedule-free baseline and no AddressSanitizer report, with every free chunk and the slack "
+            "after every object poisoned so that a swept object that is still used faults at its first touch.",
+            "Workloads fix the programs; the boot window before the language is loaded is not scheduled; trusts ASan + the poisoning plugin.",
+            "DESIGN.md §4 C02"),
+    "C11": ("model_checking", "stateless model checking of the real VM and SRFI-18 scheduler under a controlled scheduler with iterative pre-emption bounding (CHESS style) and a virtual clock",
+            "11 drivers (2-4 green threads sharing one mutex / condition variable / counter: lock-increment-unlock, producer-consumer with "
+            "mutex-unlock!+condvar, broadcast, timed lock and timed wait racing their events, joins with and without timeout, terminate of a "
+            "blocked thread, sleeps, per-thread parameters and dynamic-wind, yield storm). Every schedule with at most k deviations "
+            "(k=2 quick, up to 3 thorough) is executed on the implementation; a deviation ends the running thread's time slice before a chosen "
+            "visible instruction, optionally after advancing the virtual clock so that pending timeouts fire. Checked on every execution: "
+            "critical-section occupancy never exceeds one, every waiter resumes, every started thread finishes and join delivers its "
+            "result, no deadlock or livelock (no runnable thread / watchdog), and the mutex-protected drivers print the same final state.",
+            "Pre-emption is only placed before instructions that touch shared memory, do I/O or call foreign code; the next thread is chosen by "
+            "the real scheduler; gettimeofday/usleep are interposed by the harness executable.", "DESIGN.md §4 C11"),
+})
+
 NOT_YET = {}
 
 
